@@ -49,6 +49,10 @@ MODE = {"warm_full": False, "ref_full": False}
 def warmup_run():
     wl = WARMUP_FULL if MODE["warm_full"] else WARMUP
     w = wl[0].split()
+    if MODE["warm_full"] and MODE["warm_full"] is not True:
+        # a batch utterance of the given number of samples (the cepstrum ring then has exactly that many frames)
+        n = int(MODE["warm_full"])
+        return mk_run(0, n, w[3], [f"p i {n} 0 full"])
     return mk_run(int(w[1]), int(w[2]), w[3], wl[1:-2])
 ST_KEYS = ["st", "nmfc", "mfco", "nfeat", "fo", "of", "alloc", "grow", "bp", "cp", "malloc"]
 
@@ -868,20 +872,25 @@ def check(c):
     allok = True
     # ---- corpus first
     ncorp = 0
+    batches = {}                 # corpus cases that share model, grammar and judging mode run in one process
     for name, obj in load_corpus():
-        g = group_by_name(obj["group"])
-        cap_c = min(cap, obj.get("cap", 10 ** 9))
         if obj.get("needs_calls_longer_than_32767") and d9:
             continue
-        cases = [(obj["clip_offset_samples"], obj["clip_length_samples"], obj["cmn"], [("corpus", obj["variant_ops"])], cap_c)]
-        ncorp += 1
-        ok, P = check_group(c, binp, g, cases, cap, stats, f"corpus {name}",
-                            ref_last=bool(obj.get("reference_decoded_after_the_variant")),
-                            ref_nosearch=bool(obj.get("reference_buffered_no_search")),
-                            warm_full=bool(obj.get("warm_up_is_a_full_utt_decode")), ref_full=bool(obj.get("reference_full_utt")))
+        key = (obj["group"], bool(obj.get("reference_decoded_after_the_variant")), bool(obj.get("reference_buffered_no_search")),
+               obj.get("warm_up_is_a_full_utt_decode") or False, bool(obj.get("reference_full_utt")))
+        if key[1] or key[3]:
+            key = key + (name,)  # order- / warm-up-sensitive cases keep a process of their own
+        batches.setdefault(key, []).append((name, obj))
+    for key, items in batches.items():
+        g = group_by_name(key[0])
+        cases = [(o["clip_offset_samples"], o["clip_length_samples"], o["cmn"], [("corpus " + n, o["variant_ops"])],
+                  min(cap, o.get("cap", 10 ** 9))) for n, o in items]
+        ncorp += len(items)
+        ok, P = check_group(c, binp, g, cases, cap, stats, "corpus " + ", ".join(n[:28] for n, _ in items)[:60],
+                            ref_last=key[1], ref_nosearch=key[2], warm_full=key[3], ref_full=key[4])
         allok = allok and ok
     # ---- generated cases
-    npat = 7 if c.tier == "quick" else 40
+    npat = 6 if c.tier == "quick" else 40
     rounds = 1 if c.tier == "quick" else 4
     groups = GROUPS[:2] if c.tier == "quick" else GROUPS
     P0 = {"fsize": 410, "fshift": 160, "nmfc": 128}
@@ -1014,6 +1023,32 @@ def check(c):
             cases.append((off, ln, c.rng.choice(CMNS), variants, cap))
         ok, P = check_group(c, binp, g, cases, cap, stats, f"streaming after a batch utterance {g['name']}", warm_full=True)
         allok = allok and ok
+        if STATE["oracle_failed"]:
+            break
+        # a batch utterance shorter than the streamed one (ring of K frames, K < frames of the recording): the queued
+        # cepstra of one call then wrap around the ring end with a first part longer than the live buffer takes (D66),
+        # and calls that deliver exactly LIVEBUFBLOCKSIZE - 2*win - {2,1,0} frames meet the clamp boundary (D67)
+        K = c.rng.range(255, 268)
+        lb = fs + (K - 2) * sh + c.rng.below(sh)
+        ln = min(N, fs + 299 * sh - 1)
+        if lb < ln:
+            win, L = P["win"], P["livebuf"]
+            first = fs + (c.rng.range(3, 9) - 1) * sh + c.rng.below(sh)          # a few frames, so that the queue wraps later
+            variants = [("after-batch wrap", [f"p i {first} 0", f"p i {ln - first} 0"])]
+            for d in ((1,) if c.tier == "quick" else (0, 1, 2)):
+                m = L - 2 * win - d                                              # frames the second call delivers
+                second = m * sh
+                if first + second < ln:
+                    variants.append(("after-batch clamp-edge", [f"p i {first} 0", f"p i {second} 0", f"p i {ln - first - second} 0"]))
+            for kind in (["huge"] if c.tier == "quick" else ["huge", "random", "mixed", "queries"]):
+                variants.append((kind, gen_pattern(c.rng, ln, P, cap, kind)))
+            for kind, ops in variants:
+                note_pattern(stats, P, kind if kind.startswith("after") else "after-batch " + kind, ops, ln)
+                distinct.add(hash((g["name"], ln, tuple(ops), "aftershort", K)))
+                nvar += 1
+            ok, P = check_group(c, binp, g, [(0, ln, c.rng.choice(CMNS), variants, cap)], cap, stats,
+                                f"streaming after a shorter batch utterance {g['name']}", warm_full=lb)
+            allok = allok and ok
     c.oblige("oracle: every generated calling pattern gives the result record of the reference pattern (real decoder, ASan/UBSan)",
              allok)
     c.oblige("correspondence: counters after every call, search steps and window/feature identity agree with the model", allok)
@@ -1052,6 +1087,6 @@ def replay(c, path):
     cases = [(obj["clip_offset_samples"], obj["clip_length_samples"], obj["cmn"], [("replay", obj["variant_ops"])], cap)]
     ok, P = check_group(c, binp, g, cases, cap, stats, "replay", ref_last=bool(obj.get("reference_decoded_after_the_variant")),
                         ref_nosearch=bool(obj.get("reference_buffered_no_search")),
-                        warm_full=bool(obj.get("warm_up_is_a_full_utt_decode")), ref_full=bool(obj.get("reference_full_utt")))
+                        warm_full=obj.get("warm_up_is_a_full_utt_decode") or False, ref_full=bool(obj.get("reference_full_utt")))
     c.oblige("replayed pattern gives the reference record and agrees with the model", ok)
     c.cov.update({"evaluations": 1, "distinct_nontrivial": 1})
